@@ -195,15 +195,21 @@ def cases(tier):
         yield {"labels": [f"k1={kname(k1)}", f"k2={kname(k2)}", "form=ref+inline", "req=00", "name=itemCount", "sibling=item_count"],
                "payload": {"mode": "pair", "k1": k1, "k2": k2, "form": "ref+inline", "req": [False, False], "default": "none", "pname": "itemCount",
                            "collide": "item_count"}}
-    for shape in ("chain3", "diamond", "disjoint3"):
-        names = {"chain3": ["Base", "Mid", "M"], "diamond": ["Base", "Left", "Right", "M"], "disjoint3": ["P1", "P2", "P3", "M"]}[shape]
+    for shape in ("chain3", "diamond", "disjoint3", "selfref-chain"):
+        names = {"chain3": ["Base", "Mid", "M"], "diamond": ["Base", "Left", "Right", "M"], "disjoint3": ["P1", "P2", "P3", "M"],
+                 "selfref-chain": ["Base", "Mid", "M"]}[shape]
         for order in itertools.permutations(names):
             if tier == "quick" and shape == "diamond" and order[0] not in ("M", "Base"):
                 continue
             yield {"labels": [f"shape={shape}", "order=" + ",".join(order)], "payload": {"mode": "shape", "shape": shape, "order": list(order)}}
+            # the same shape with names that are suffixes of one another (the parent's name ends with the child's, and the reverse)
+            if shape in ("chain3", "selfref-chain"):
+                for naming in NAMINGS:
+                    yield {"labels": [f"shape={shape}", "order=" + ",".join(order), f"names={naming}"],
+                           "payload": {"mode": "shape", "shape": shape, "order": list(order), "naming": naming}}
 
 
-def _observe(doc):
+def _observe(doc, target="M"):
     """-> ("diag", text) | ("ok", {attr: (abstract, required, default-json)} , class, sandbox-free round-trip results)"""
     from checks.c02 import find_class
     res = gen.generate(doc)
@@ -213,7 +219,7 @@ def _observe(doc):
         return ("diag", res.diags[0].short())
     with Sandbox(res.pkg_tree()) as sb:
         try:
-            cls = find_class(res, sb, "M")
+            cls = find_class(res, sb, target)
         except Exception as exc:  # noqa: BLE001
             return ("import-fails", f"{type(exc).__name__}: {exc}")
         if cls is None:
@@ -239,13 +245,13 @@ def _observe(doc):
         return ("ok", attrs, res, cls.__name__)
 
 
-def _roundtrip(doc, inst):
+def _roundtrip(doc, inst, target="M"):
     from checks.c02 import find_class
     res = gen.generate(doc)
     if res.crash or res.rejected:
         return None
     with Sandbox(res.pkg_tree()) as sb:
-        cls = find_class(res, sb, "M")
+        cls = find_class(res, sb, target)
         if cls is None:
             return None
         out = {}
@@ -348,6 +354,10 @@ def _pair(p):
     return {"violations": uniq, "outcome": "/".join(kinds) + (":viol" if uniq else ""), "nontrivial": True, "steps": steps}
 
 
+NAMINGS = {"parent-ends-with-child": {"Base": "MyNewPet", "Mid": "NewPet", "M": "Pet"}, "child-ends-with-parent": {"Base": "Pet", "Mid": "NewPet", "M": "MyNewPet"},
+           "parent-starts-with-child": {"Base": "ItemBaseX", "Mid": "ItemBase", "M": "Item"}}
+
+
 def _shape(p):
     ref = lambda n: {"$ref": f"#/components/schemas/{n}"}  # noqa: E731
     shape = p["shape"]
@@ -364,6 +374,14 @@ def _shape(p):
                  "M": {"allOf": [ref("Left"), ref("Right")]}}
         expect = {"id": ("int", True), "v": ("int", False), "l": ("str", False), "r": ("str", True)}
         inst = {"id": 1, "v": 3, "l": "a", "r": "b"}
+    elif shape == "selfref-chain":
+        # the root parent refers to itself (property, array, union): the children inherit those properties unchanged
+        comps = {"Base": {"type": "object", "required": ["id"], "properties": {"id": {"type": "integer"}, "next": ref("Base"),
+                                                                               "either": {"oneOf": [ref("Base"), {"type": "integer"}]}}},
+                 "Mid": {"allOf": [ref("Base"), {"type": "object", "properties": {"name": {"type": "string"}}}]},
+                 "M": {"allOf": [ref("Mid"), {"type": "object", "properties": {"own": {"type": "boolean"}}}]}}
+        expect = {"id": ("int", True), "name": ("str", False), "own": ("bool", False)}
+        inst = {"id": 1, "next": {"id": 2, "next": {"id": 5}}, "either": {"id": 6, "either": 7}, "name": "n", "own": True}      # (no optional array: C02's recorded finding)
     else:
         comps = {"P1": {"type": "object", "required": ["a"], "properties": {"a": {"type": "string"}}},
                  "P2": {"type": "object", "properties": {"b": {"type": "integer"}}},
@@ -372,7 +390,15 @@ def _shape(p):
         expect = {"a": ("str", True), "b": ("int", False), "c": ("datetime", True), "flag": ("bool", False)}
         inst = {"a": "x", "b": 1, "c": "2020-01-02T03:04:05+00:00", "flag": False}
     doc = gen.base_doc({k: comps[k] for k in p["order"]})
-    o = _observe(doc)
+    target = "M"
+    if p.get("naming"):
+        import json
+        text = json.dumps(doc)
+        for old_, new_ in NAMINGS[p["naming"]].items():
+            text = text.replace(f'#/components/schemas/{old_}"', f'#/components/schemas/\u0001{new_}"').replace(f'"{old_}": ', f'"\u0001{new_}": ')
+        doc = json.loads(text.replace("\u0001", ""))
+        target = NAMINGS[p["naming"]]["M"]
+    o = _observe(doc, target)
     if o[0] == "crash":
         return {"skipped_crash": True, "outcome": "crash", "nontrivial": False}
     key = f"{shape}"
@@ -390,7 +416,7 @@ def _shape(p):
                 viol.append({"oracle": "not-narrowest", "site": shape, "key": f"{key}/{n}", "detail": f"order {p['order']}: {n} is {got!r}, expected {norm_abs(ab)!r}"})
             if (required is True) != req:
                 viol.append({"oracle": "requiredness", "site": shape, "key": f"{key}/{n}", "detail": f"order {p['order']}: {n} required={required!r}, expected {req}"})
-        rt = _roundtrip(doc, inst)
+        rt = _roundtrip(doc, inst, target)
         if rt and ("error" in rt or not K.json_eq(rt.get("encode"), inst)):
             viol.append({"oracle": "roundtrip", "site": shape, "key": key, "detail": f"order {p['order']}: {inst!r} -> {rt}"})
     return {"violations": viol, "outcome": "ok" if not viol else "viol", "nontrivial": True, "steps": 2}
